@@ -7,7 +7,7 @@ export GOFLAGS=-mod=mod GOPROXY=off GOSUMDB=off GOTOOLCHAIN=local
 id=$1; k=$2; shift 2; extra="$*"
 OUTDIR=${OUTDIR:-out}; TAG=${TAG:-}; W=${WBASE:-/tmp/mut/w}-$id; O=$W/$OUTDIR/$k; V=/verif; S=$V/seeded/$id-$TAG$k
 [ -f $O/patch.diff ] || { echo "no patch $O"; exit 2; }
-cd $W && git checkout -q -- . && git clean -fdq -e out -e out2 -e out3
+cd $W && git checkout -q -- . && git clean -fdq -e 'out*'
 demo=$(ls $O/*_test.go | head -1)
 tests=$(grep -o 'func Test[A-Za-z0-9_]*' $demo | sed 's/func //' | paste -sd'|')
 pkgline=$(grep -m1 '^package ' $demo)
@@ -25,18 +25,26 @@ git apply $O/patch.diff || { echo "patch does not apply"; exit 2; }
 go build ./... || { echo "does not build"; git checkout -q -- .; exit 2; }
 base=$(python3 /tmp/mut/baseline_check.py $W | head -1)
 mut_out=$(rundemo); mut_rc=$?
-git checkout -q -- .
+git checkout -q -- . && git clean -fdq -e 'out*'
 echo "[$id-$TAG$k] demo clean rc=$clean_rc, with patch rc=$mut_rc; $base"
 mkdir -p $S && cp $O/patch.diff $S/ && cp $demo $S/ && cp $O/meta.json $S/meta.agent.json
 results=""
 for cid in $id $extra; do
+  if [ -n "${USE_WT:-}" ]; then
+    # evaluate against the scratch worktree itself (VERIF_REPO), so that several seeds can be
+    # evaluated at the same time; /repo is not touched
+    git -C $W apply $O/patch.diff || { echo "cannot apply to $W"; exit 2; }
+    out=$(cd $V && VERIF_REPO=$W ./check $cid quick 2>&1); rc=$?
+    git -C $W checkout -q -- . && git -C $W clean -fdq -e 'out*'
+  else
   git -C /repo apply $O/patch.diff || { echo "cannot apply to /repo"; exit 2; }
   out=$(cd $V && ./check $cid quick 2>&1); rc=$?
   git -C /repo checkout -q -- .
+  fi
   if [ $rc -eq 1 ]; then r="CAUGHT by $cid: $(echo "$out" | grep -m1 violated | cut -c1-300)"; elif [ $rc -eq 0 ]; then r="MISSED by $cid"; else r="ERROR($rc) in $cid: $(echo "$out" | tail -2 | tr '\n' ' ' | cut -c1-300)"; fi
   echo "   $r"; results="$results$r\n"
 done
-git -C $V checkout -q -- evidence 2>/dev/null  # evidence written against a mutated tree is not evidence
+[ -n "${KEEP_EVIDENCE:-}" ] || git -C $V checkout -q -- evidence 2>/dev/null  # evidence written against a mutated tree is not evidence
 python3 - "$S" "$id" "$k" "$clean_rc" "$mut_rc" "$base" "$(printf "$results")" <<'PY'
 import json, sys, os
 S,id,k,crc,mrc,base,results=sys.argv[1:8]
